@@ -48,6 +48,11 @@ pub fn std_layers() -> Layers {
     l.add(raw::Layer::new(1, "met1").add_pairs(&[(0, LayerPurpose::Drawing), (1, LayerPurpose::Pin), (2, LayerPurpose::Label), (3, LayerPurpose::Obstruction)]).unwrap());
     l.add(raw::Layer::new(2, "met2").add_pairs(&[(0, LayerPurpose::Drawing), (5, LayerPurpose::Pin), (7, LayerPurpose::Label), (9, LayerPurpose::Obstruction)]).unwrap());
     l.add(raw::Layer::new(3, "via1").add_pairs(&[(0, LayerPurpose::Drawing), (4, LayerPurpose::Pin), (6, LayerPurpose::Label), (8, LayerPurpose::Obstruction)]).unwrap());
+    // three layers that share ONE GDSII layer number and differ in datatypes (as li1 / licon / mcon do in sky130): addressed
+    // by the abstract layer ids 101, 102, 103 (see `lkey`)
+    l.add(raw::Layer::new(68, "li").add_pairs(&[(20, LayerPurpose::Drawing), (16, LayerPurpose::Pin), (5, LayerPurpose::Label), (21, LayerPurpose::Obstruction)]).unwrap());
+    l.add(raw::Layer::new(68, "mcon").add_pairs(&[(44, LayerPurpose::Drawing), (48, LayerPurpose::Pin), (45, LayerPurpose::Label), (46, LayerPurpose::Obstruction)]).unwrap());
+    l.add(raw::Layer::new(68, "licon").add_pairs(&[(60, LayerPurpose::Drawing), (61, LayerPurpose::Pin), (62, LayerPurpose::Label), (63, LayerPurpose::Obstruction)]).unwrap());
     l.add(raw::Layer::new(4, "met3").add_pairs(&[(0, LayerPurpose::Drawing), (11, LayerPurpose::Pin), (12, LayerPurpose::Label), (13, LayerPurpose::Obstruction)]).unwrap());
     l
 }
@@ -67,6 +72,10 @@ pub fn shape_of(e: &Value) -> Shape {
         "path" => Shape::Path(raw::Path { points: p, width: geti(e, "width") as usize }),
         k => panic!("harness: shape kind {k}"),
     }
+}
+/// abstract layer id -> key: 1..4 by GDSII number, 101.. by name (layers sharing the number 68)
+pub fn lkey(layers: &Layers, n: i16) -> raw::LayerKey {
+    match n { 101 => layers.keyname("li"), 102 => layers.keyname("mcon"), 103 => layers.keyname("licon"), _ => layers.keynum(n) }.expect("harness: layer")
 }
 /// per-layer shape groups: either {"<layernum>": [shapes]} or [{layer, shapes}]
 fn layer_groups(v: &Value) -> Vec<(i16, Vec<Value>)> {
@@ -95,7 +104,7 @@ pub fn raw_lib_of(v: &Value) -> raw::Library {
             for e in geta(c, "elems") {
                 let net = gets(e, "net");
                 lay.elems.push(raw::Element { net: if net.is_empty() { None } else { Some(net.into()) },
-                    layer: layers.keynum(geti(e, "layer") as i16).expect("layer"), purpose: purpose_of(gets(e, "purpose")), inner: shape_of(e) });
+                    layer: lkey(&layers, geti(e, "layer") as i16), purpose: purpose_of(gets(e, "purpose")), inner: shape_of(e) });
             }
             for a in geta(c, "annots") {
                 lay.annotations.push(raw::TextElement { string: gets(a, "str").into(), loc: rpts(&json!([a["at"]]))[0] });
@@ -107,12 +116,12 @@ pub fn raw_lib_of(v: &Value) -> raw::Library {
             for p in geta(a, "ports") {
                 let mut port = raw::AbstractPort::new(gets(p, "net"));
                 for ls in layer_groups(&p["shapes"]) {
-                    port.shapes.insert(layers.keynum(ls.0).unwrap(), ls.1.iter().map(shape_of).collect());
+                    port.shapes.insert(lkey(&layers, ls.0), ls.1.iter().map(shape_of).collect());
                 }
                 ab.ports.push(port);
             }
             for ls in layer_groups(&a["blockages"]) {
-                ab.blockages.insert(layers.keynum(ls.0).unwrap(), ls.1.iter().map(shape_of).collect());
+                ab.blockages.insert(lkey(&layers, ls.0), ls.1.iter().map(shape_of).collect());
             }
             cell.abs = Some(ab);
         }
